@@ -259,6 +259,6 @@ def check(case):
 
 
 SUBCHECKS = [
-    Sub("access", check, strategy=lambda tier: file_case(tier), quick=800, thorough=8000,
+    Sub("access", check, strategy=lambda tier: file_case(tier), quick=3200, thorough=160000,
         min_share={"layout:digit-names": 0.05, "layout:alternating": 0.05, "nontrivial": 0.1}),
 ]
